@@ -45,7 +45,7 @@ CFG = {
     ],
     "manifest": {
         "category": "proof",
-        "text": "Unbounded Coq theorems (23, closed under the global context) about a Gallina model of the macros' "
+        "text": "Unbounded Coq theorems (22, closed under the global context) about a Gallina model of the macros' "
                 "argument handling (Macro.v: validate, VersionRange::parse, parse_semver, to_api_endpoint_fn's builder "
                 "sequence, ApiEndpoint::new/new_for_types) and of the doc-comment algorithm (DocComment.v: "
                 "normalize_comment_string, ExtractedDoc::from_attrs): every field of the produced endpoint equals the "
@@ -54,9 +54,9 @@ CFG = {
                 "panics); the function, trait-impl and trait-stub forms are equal up to the handler, hence identical "
                 "routing and documents; served iff the version is in the declared range; documented iff published "
                 "and in range; summary ++ description keeps the non-blank characters of the normalised lines in order "
-                "(induction over the line list); the comment's own text is kept outside the known class K19 and "
-                "always shortened inside it; version literal / pair-order / wildcard / content-type refusals; the model "
-                "satisfies the executable specification used by the judge for every accepted declaration outside K19 "
+                "(induction over the line list); the comment's own text is kept for every comment (full strength; the "
+                "code's decoration test is proved equal to the specification's reading); version literal / pair-order / wildcard / content-type refusals; the model "
+                "satisfies the executable specification used by the judge for every accepted declaration "
                 "(C19_model_meets_spec). "
                 "Correspondence: translation validation of the real macros on 150 (quick) / 450 (thorough) generated "
                 "declarations compiled in three styles, plus 98 refusal probes compiled with cargo check; the "
@@ -66,8 +66,9 @@ CFG = {
                 "(sampled: the declarations of the committed batches; the fixed edge list covers each argument class and "
                 "each branch of from_attrs/normalize_comment_string/validate/VersionRange::parse). Modelled, not "
                 "verified: syn/serde_tokenstream parsing and quote emission, rustc's doc-comment tokenisation "
-                "(observed), parameter/response schema generation (compared across styles only). Open known finding "
-                "K19 (a '*' that is text is stripped from undecorated block comments).",
+                "(observed), parameter/response schema generation (compared across styles only). Known finding K19 "
+                "(a '*' that is text was stripped from undecorated block comments) was fixed by 9fd4ea2; its "
+                "witness is replayed first on every run and a reappearance is a violation.",
         "technique": "Coq proof (induction over doc lines / case analysis of the builder sequence) + translation "
                      "validation of the macro on generated programs in three declaration styles"
     },
